@@ -205,13 +205,15 @@ Definition ends_with (s suf : string) : bool :=
   Nat.leb m n && String.eqb (substring (n - m) m s) suf.
 
 (* columns: pydantic field, required suffix of the slot label ("" = any), file kind, context, sanitiser, finding id.
-   Hand-quoted default values (sanitiser SNone inside quotes) are acceptable only for the uuid kind: UUID() rejects every text that contains
-   a quote or a backslash (its alphabet is hex digits, '-', '{', '}', 'urn:', 'uuid:', '_', '+', and - through int() - surrounding
-   WHITESPACE, newline included: that part is the finding uuid_default_whitespace). A hand-quoted default of any other kind is NOT listed:
-   dateutil's isoparse accepts any single character between date and time.
+   NO hand-quoted default value (sanitiser SNone inside quotes) is listed, for any kind: a preceding validation is not a guarantee
+   (dateutil's isoparse accepts any single character between date and time; UUID() - through int() - tolerates surrounding whitespace,
+   newline included: the former finding uuid_default_whitespace, repaired by emitting the default through repr). Defaults of the
+   validated kinds are acceptable as repr-emitted literals (class KOk); where such a repr image also lands in a docstring the site is
+   listed with an id starting with "validated_by_": not a finding - the validator of the kind cannot let a triple quote through
+   (isoparse: one separator character; UUID(): alphabet of hex digits, '-', '{', '}', 'urn:', 'uuid:', '_', '+', whitespace), which the
+   oracle checks on every run.
    A literal-enum default is printed with repr into the Attributes / Args docstring (protocol.py to_docstring): a triple quote in the value ends
-   the docstring (finding literal_enum_default_docstring).
-   ids starting with "validated_by_" are not findings: the validator of the kind cannot let a triple quote through (checked by the oracle). *)
+   the docstring (finding literal_enum_default_docstring). *)
 Definition known_narrow : list (string * string * string * ctx * san * string) := [
   ("Schema.description", "", "models/*.py", CDoc, SNone, "desc_code_exec");
   ("Schema.description", "", "api/*/*.py", CDoc, SNone, "desc_code_exec");
@@ -225,10 +227,8 @@ Definition known_narrow : list (string * string * string * ctx * san * string) :
   ("Schema.const", "", "models/*.py", CFstrDQ, SReprEsc, "const_fstring");
   ("Schema.properties.key", "", "models/*.py", CIdent, SSanitize, "raw_fallback");
   ("Parameter.name", "", "api/*/*.py", CIdent, SSanitize, "raw_fallback");
-  ("Schema.default", "-uuid", "models/*.py", CSQ, SNone, "uuid_default_whitespace");
-  ("Schema.default", "-uuid", "api/*/*.py", CSQ, SNone, "uuid_default_whitespace");
-  ("Schema.default", "-uuid", "models/*.py", CDoc, SNone, "validated_by_uuid");
-  ("Schema.default", "-uuid", "api/*/*.py", CDoc, SNone, "validated_by_uuid");
+  ("Schema.default", "-uuid", "models/*.py", CDoc, SRepr, "validated_by_uuid");
+  ("Schema.default", "-uuid", "api/*/*.py", CDoc, SRepr, "validated_by_uuid");
   ("Schema.default", "-date", "models/*.py", CDoc, SRepr, "validated_by_isoparse");
   ("Schema.default", "-date", "api/*/*.py", CDoc, SRepr, "validated_by_isoparse");
   ("Schema.default", "-datetime", "models/*.py", CDoc, SRepr, "validated_by_isoparse");
